@@ -677,6 +677,25 @@ func c03semantic(c *Ctx, r *mon.Rand, b *c03base) []c03edit {
 		u.Kids = append(u.Kids, refcbor.NInt(int64(777+r.Intn(100))), gen.WireValue(r, 1, false))
 		return true
 	})
+	for _, ua := range []int64{b.keys[0].Alg, -7, -8, -37, 0, 99} {
+		ua := ua
+		add(fmt.Sprintf("unprotected-add-alg=%d", ua), func(t *gen.Tree, a *Node) bool {
+			u := a.Kids[1]
+			if u.Major != refcbor.Map || refcose.Lookup(u, 1) != nil {
+				return false
+			}
+			u.Kids = append(u.Kids, refcbor.NInt(1), refcbor.NInt(ua))
+			return true
+		})
+	}
+	add("unprotected-add-alg-text", func(t *gen.Tree, a *Node) bool {
+		u := a.Kids[1]
+		if u.Major != refcbor.Map || refcose.Lookup(u, 1) != nil {
+			return false
+		}
+		u.Kids = append(u.Kids, refcbor.NInt(1), refcbor.NTstr("ES256"))
+		return true
+	})
 	add("unprotected-remove", func(t *gen.Tree, a *Node) bool {
 		u := a.Kids[1]
 		if u.Major != refcbor.Map || len(u.Kids) < 2 {
